@@ -7,7 +7,7 @@ from pbt.core import Result, silence
 
 ID = "C17"
 LEVEL = "exploration"
-EXAMPLES = {"quick": 320, "thorough": 9000}
+EXAMPLES = {"quick": 192, "thorough": 9000}
 SHRINK_S = {"quick": 4, "thorough": 30}     # hand-reduced witnesses of the known shapes are in replays/
 DEADLINE_S = {"quick": 600, "thorough": 3000}
 RULE = ("Hypothesis draws an OPF problem as for C16 (network, controllable flags, limits, dclines, branch limits) with cost entries on "
